@@ -215,16 +215,41 @@ func (tr *fnTrans) instr(ins ssa.Instruction) {
 		tr.note("go statement: %s", x.Common().String())
 		tr.goStmt(x)
 	case *ssa.Defer:
-		if !x.Block().Dominates(tr.curBlock) {
-			tr.unsupported("conditional defer")
-		}
 		tr.defers = append(tr.defers, x)
+		if tr.deferGuard == nil {
+			tr.deferGuard = map[*ssa.Defer]string{}
+		}
+		tr.deferGuard[x] = tr.guard
 	case *ssa.RunDefers:
 		for i := len(tr.defers) - 1; i >= 0; i-- {
 			d := tr.defers[i]
 			if d.Block().Dominates(tr.curBlock) {
 				tr.doCall(d, d.Common(), nil)
+				continue
 			}
+			// a defer statement on a conditional path: it runs iff that statement was executed
+			cond, ok := tr.deferGuard[d]
+			if !ok {
+				continue
+			}
+			pre := tr.cur.clone()
+			saved := tr.guard
+			g := tr.c.freshConst("g", "Bool")
+			tr.asserts = append(tr.asserts, app("=", g, and(saved, cond)))
+			tr.guard = g
+			tr.doCall(d, d.Common(), nil)
+			post := tr.cur
+			merged := pre.clone()
+			for _, comp := range tr.allComps() {
+				a, b := tr.get(post, comp, tr.compSort[comp]), tr.get(pre, comp, tr.compSort[comp])
+				if a != b {
+					merged.comps[comp] = app("ite", cond, a, b)
+				}
+			}
+			tr.cur = merged
+			g2 := tr.c.freshConst("g", "Bool")
+			tr.asserts = append(tr.asserts, app("=", g2, and(saved, imp(cond, tr.guard))))
+			tr.guard = g2
 		}
 	case *ssa.Call:
 		res := tr.doCall(x, x.Common(), x)
@@ -608,6 +633,13 @@ func (tr *fnTrans) chanElem(t types.Type) types.Type {
 
 // send models `ch <- v` taken under condition cond (select case) or unconditionally.
 func (tr *fnTrans) send(ch Term, cht types.Type, v Term, cond string, p token.Pos, blocking bool) {
+	if cs := tr.chanSpec(cht); cs != nil {
+		saved := tr.c.home
+		if h := tr.eng.homeOf(cs.Where); h != nil {
+			tr.c.home = h
+		}
+		defer func() { tr.c.home = saved }()
+	}
 	n := tr.ord("send")
 	saved := tr.guard
 	if cond != "true" {
@@ -697,6 +729,13 @@ func (tr *fnTrans) send(ch Term, cht types.Type, v Term, cond string, p token.Po
 
 // recvValue yields a fresh received value constrained by the channel's invariant.
 func (tr *fnTrans) recvValue(name string, cht types.Type, cond string, ch string) Term {
+	if cs := tr.chanSpec(cht); cs != nil {
+		saved := tr.c.home
+		if h := tr.eng.homeOf(cs.Where); h != nil {
+			tr.c.home = h
+		}
+		defer func() { tr.c.home = saved }()
+	}
 	et := tr.chanElem(cht)
 	s := tr.c.sortOf(et)
 	v := Term{tr.c.freshConst(name, s), s, et}
